@@ -81,12 +81,21 @@ UnpremulWhy(e) ==
   ELSE IF ~AllFin(e.out) THEN "non-finite-result"
   ELSE "ok"
 
+(* a CAM16 partial colour (lightness or brightness, chroma-like attribute >= 0, hue) expanded to the full colour and
+   converted back to XYZ: attributes on their lower bound or a billionth of the usual range (100) away from it *)
+PfinWhy(e) ==
+  IF ~AllFin(e.p) \/ FxIsNeg(FxOf(e.p[1])) \/ FxIsNeg(FxOf(e.p[2])) THEN "ok"
+  ELSE IF e.panic = 1 THEN "panic"
+  ELSE IF ~AllFin(e.full) \/ ~AllFin(e.xyz) THEN "non-finite-result"
+  ELSE "ok"
+
 Why(e) == CASE e.ev = "walk" -> WalkWhy(e)
             [] e.ev = "bounds" -> BoundsWhy(e)
             [] e.ev = "fin" -> FinWhy(e)
             [] e.ev = "op" -> OpWhy(e)
             [] e.ev \in {"blend", "compose", "custom", "eqn"} -> BlendWhy(e)
             [] e.ev = "unpremul" -> UnpremulWhy(e)
+            [] e.ev = "pfin" -> PfinWhy(e)
             [] OTHER -> "ok"
 
 TInit == l = 1
